@@ -1,8 +1,14 @@
 //! Logic related to the Watcher, the components in charge of watching for breaches on chain.
 
 use std::collections::HashMap;
+#[cfg(not(feature = "verif"))]
 use std::sync::atomic::{AtomicU32, Ordering};
+#[cfg(not(feature = "verif"))]
 use std::sync::{Arc, Mutex};
+#[cfg(feature = "verif")]
+use std::sync::{atomic::Ordering, Arc};
+#[cfg(feature = "verif")]
+use crate::verif_sync::{AtomicU32, Mutex};
 
 use bitcoin::block::Header;
 use bitcoin::secp256k1::SecretKey;
@@ -1389,5 +1395,17 @@ mod tests {
             .unwrap()
             .blocks()
             .contains(&last_block_header.block_hash()));
+    }
+}
+
+#[cfg(feature = "verif")]
+impl Watcher {
+    /// Canonical rendering of the in-memory state. Used by the verification harness.
+    pub fn verif_snapshot(&self) -> String {
+        format!(
+            "height={} cache={{{}}}",
+            self.last_known_block_height.load(Ordering::Acquire),
+            self.locator_cache.lock().unwrap().verif_snapshot()
+        )
     }
 }
